@@ -20,11 +20,13 @@ mod ops_cli;
 // (signature: fn(op: &str, args: &[String]) -> Option<String>; None = not mine)
 mod ops_anchors;
 mod ops_arena;
+mod ops_rt;
 
 pub const COMPONENTS: &[fn(&str, &[String]) -> Option<String>] = &[
     ops_anchors::dispatch,
     ops_arena::dispatch,
     ops_cli::dispatch,
+    ops_rt::dispatch,
 ];
 
 #[allow(dead_code)]
